@@ -56,6 +56,7 @@ def main():
     props_filter = None
     dirs = ["selftest/mutants", "seeded"]
     seed = os.environ.get("VERIF_SEED", "1")
+    check_tests = False
     i = 0
     while i < len(args):
         if args[i] == "--tier":
@@ -66,6 +67,8 @@ def main():
             props_filter = args[i + 1].split(","); i += 2
         elif args[i] == "--dirs":
             dirs = args[i + 1].split(","); i += 2
+        elif args[i] == "--check-tests":
+            check_tests = True; i += 1
         else:
             i += 1
     muts = load_mutants(dirs)
@@ -92,6 +95,13 @@ def main():
                 print("%-40s PATCH DOES NOT APPLY: %s" % (m["name"], r.stdout.strip()[:200]))
                 results[m["name"]] = dict(error="patch does not apply")
                 continue
+            tests_pass = None
+            if check_tests:
+                r = subprocess.run("cmake -S . -B _b -G Ninja -DBUILD_TESTS=ON -DBUILD_DOC=OFF >/dev/null 2>&1 && cmake --build _b >/dev/null 2>&1 && ./_b/tests/tests | tail -2",
+                                   shell=True, cwd=tree, stdout=subprocess.PIPE, stderr=subprocess.STDOUT, text=True)
+                tests_pass = "[  PASSED  ] 98 tests" in r.stdout
+                shutil.rmtree(os.path.join(tree, "_b"), ignore_errors=True)
+                print("%-40s existing test suite with the change: %s" % (m["name"], "98/98 pass" if tests_pass else "FAILS (not a valid mutant): " + r.stdout[-200:]), flush=True)
             env = dict(os.environ, VERIF_REPO=tree, VERIF_EVIDENCE_DIR=os.path.join(tree, "_evidence"), VERIF_SEED=seed)
             res = {}
             for pid in props:
@@ -106,7 +116,9 @@ def main():
                     detail = "rc=%d %s" % (r.returncode, r.stdout[-300:])
                 res[pid] = dict(caught=caught, sig=detail, wall=round(time.time() - t0, 1))
                 print("%-40s %s %-6s %s (%.0fs)" % (m["name"], pid, "CAUGHT" if caught else "MISSED", detail, time.time() - t0), flush=True)
-            results[m["name"]] = dict(what=m["what"], tier=tier, results=res)
+            prev = results.get(m["name"], {}) if isinstance(results.get(m["name"]), dict) else {}
+            merged = dict(prev.get("results", {})); merged.update(res)
+            results[m["name"]] = dict(what=m["what"], tier=tier, results=merged, tests_pass=tests_pass if tests_pass is not None else prev.get("tests_pass"))
         finally:
             subprocess.run(["git", "-C", "/repo", "worktree", "remove", "--force", tree], stdout=subprocess.DEVNULL, stderr=subprocess.DEVNULL)
             shutil.rmtree(tree, ignore_errors=True)
